@@ -33,6 +33,14 @@ mod u7 {
         MixIntStr, // struct{scalar, string}
         MixJob,    // struct{scalar, array[scalar;1], string}       (Job{id, items, label})
         MixTuple,  // tuple{scalar, struct{string}}                  depth 2
+        // the remaining (container kind x element kind) pairs
+        StructVar,    // struct{variant(tag, scalar), scalar}
+        StructVarArr, // struct{variant(tag, array[scalar;1]), scalar}    (a record holding an option<array>)
+        ArrStruct,    // array[struct{scalar, scalar}]
+        ArrVar,       // array[variant(tag, scalar)]
+        VarStr,       // variant(tag, string)
+        VarArr,       // variant(tag, array[scalar;1])
+        VarVar,       // variant(tag, variant(tag, scalar))
     }
 
     /// symbolic leaves of a shape
@@ -74,7 +82,8 @@ mod u7 {
             Sh::Scalar => 0,
             Sh::Str0 | Sh::Str1 | Sh::Str2 | Sh::Struct2 | Sh::VarScalar | Sh::Arr(_) => 1,
             Sh::StructStr | Sh::VarStruct | Sh::ArrStr | Sh::StructArr | Sh::MixIntStr => 2,
-            Sh::NestStruct | Sh::NestArr | Sh::MixJob | Sh::MixTuple => 3,
+            Sh::StructVar | Sh::ArrStruct | Sh::ArrVar | Sh::VarStr | Sh::VarArr | Sh::VarVar => 2,
+            Sh::NestStruct | Sh::NestArr | Sh::MixJob | Sh::MixTuple | Sh::StructVarArr => 3,
         }
     }
 
@@ -138,6 +147,35 @@ mod u7 {
                 let x = b_str(t, vec![lv.s[0]]);
                 let inner = b_struct(t, vec![x]);
                 b_struct(t, vec![lv.e[0], inner])
+            }
+            Sh::StructVar => {
+                let v = Value::from(EnumObject::new(lv.tag, lv.e[0], t));
+                b_struct(t, vec![v, lv.e[1]])
+            }
+            Sh::StructVarArr => {
+                let a = b_arr(t, vec![lv.e[0]]);
+                let v = Value::from(EnumObject::new(lv.tag, a, t));
+                b_struct(t, vec![v, lv.e[1]])
+            }
+            Sh::ArrStruct => {
+                let st = b_struct(t, vec![lv.e[0], lv.e[1]]);
+                b_arr(t, vec![st])
+            }
+            Sh::ArrVar => {
+                let v = Value::from(EnumObject::new(lv.tag, lv.e[0], t));
+                b_arr(t, vec![v])
+            }
+            Sh::VarStr => {
+                let x = b_str(t, vec![lv.s[0]]);
+                Value::from(EnumObject::new(lv.tag, x, t))
+            }
+            Sh::VarArr => {
+                let a = b_arr(t, vec![lv.e[0]]);
+                Value::from(EnumObject::new(lv.tag, a, t))
+            }
+            Sh::VarVar => {
+                let v = Value::from(EnumObject::new(lv.tag, lv.e[0], t));
+                Value::from(EnumObject::new(lv.tag, v, t))
             }
         }
     }
@@ -299,6 +337,40 @@ mod u7 {
                 let g = m_fields(f[1], h, 1);
                 m_str(g[0], h, &[lv.s[0]]);
             }
+            Sh::StructVar => {
+                let f = m_fields(x, h, 2);
+                let p = m_variant(f[0], h, lv.tag);
+                assert!(p == lv.e[0] && f[1] == lv.e[1], "leaves equal");
+            }
+            Sh::StructVarArr => {
+                let f = m_fields(x, h, 2);
+                let p = m_variant(f[0], h, lv.tag);
+                let d = m_elems(p, h, 1);
+                assert!(d[0] == lv.e[0] && f[1] == lv.e[1], "leaves equal");
+            }
+            Sh::ArrStruct => {
+                let d = m_elems(x, h, 1);
+                m_struct2(d[0], h, lv);
+            }
+            Sh::ArrVar => {
+                let d = m_elems(x, h, 1);
+                let p = m_variant(d[0], h, lv.tag);
+                assert!(p == lv.e[0], "variant payload equal");
+            }
+            Sh::VarStr => {
+                let p = m_variant(x, h, lv.tag);
+                m_str(p, h, &[lv.s[0]]);
+            }
+            Sh::VarArr => {
+                let p = m_variant(x, h, lv.tag);
+                let d = m_elems(p, h, 1);
+                assert!(d[0] == lv.e[0], "array element equal");
+            }
+            Sh::VarVar => {
+                let p = m_variant(x, h, lv.tag);
+                let q = m_variant(p, h, lv.tag);
+                assert!(q == lv.e[0], "inner payload equal");
+            }
         }
     }
 
@@ -326,7 +398,38 @@ mod u7 {
     fn poke(sh: Sh, x: Value, t: &mut VmGreenThread, lv: &Lv, nv: Value) -> bool {
         let h: Vec<Hp> = t.heap_list.clone();
         match sh {
-            Sh::Scalar | Sh::Str0 | Sh::Str1 | Sh::Str2 | Sh::StructStr | Sh::VarScalar => false,
+            Sh::Scalar | Sh::Str0 | Sh::Str1 | Sh::Str2 | Sh::StructStr | Sh::VarScalar | Sh::VarStr | Sh::VarVar => false,
+            Sh::StructVar => {
+                set_field(t, x, 1, nv);
+                assert!(m_fields(x, &h, 2)[1] == nv);
+                true
+            }
+            Sh::StructVarArr => {
+                let v = m_fields(x, &h, 2)[0];
+                let a = m_variant(v, &h, lv.tag);
+                array_push(t, a, nv);
+                set_index(t, a, 0, nv);
+                assert!(m_elems(a, &h, 2)[0] == nv && m_elems(a, &h, 2)[1] == nv);
+                true
+            }
+            Sh::ArrStruct => {
+                let st = m_elems(x, &h, 1)[0];
+                set_field(t, st, 0, nv);
+                assert!(m_fields(st, &h, 2)[0] == nv);
+                true
+            }
+            Sh::ArrVar => {
+                array_push(t, x, nv);
+                assert!(m_elems(x, &h, 2)[1] == nv);
+                true
+            }
+            Sh::VarArr => {
+                let a = m_variant(x, &h, lv.tag);
+                array_push(t, a, nv);
+                set_index(t, a, 0, nv);
+                assert!(m_elems(a, &h, 2)[0] == nv && m_elems(a, &h, 2)[1] == nv);
+                true
+            }
             Sh::Struct2 => {
                 set_field(t, x, 0, nv);
                 assert!(m_fields(x, &h, 2)[0] == nv);
@@ -857,6 +960,13 @@ mod u7 {
     inst!(copy_mix_int_str, copy_post(Sh::MixIntStr, IF));
     inst!(copy_mix_job, copy_post(Sh::MixJob, IF));
     inst!(copy_mix_tuple, copy_post(Sh::MixTuple, BA));
+    inst!(copy_struct_var, copy_post(Sh::StructVar, IF));
+    inst!(copy_struct_var_arr, copy_post(Sh::StructVarArr, IF));
+    inst!(copy_arr_struct, copy_post(Sh::ArrStruct, IF));
+    inst!(copy_arr_var, copy_post(Sh::ArrVar, BA));
+    inst!(copy_var_str, copy_post(Sh::VarStr, IF));
+    inst!(copy_var_arr, copy_post(Sh::VarArr, IF));
+    inst!(copy_var_var, copy_post(Sh::VarVar, IF));
 
     inst!(spawn_0, spawn_case(0, [Sh::Scalar, Sh::Scalar]));
     inst!(spawn_scalar_struct_str, spawn_case(2, [Sh::Scalar, Sh::StructStr]));
